@@ -1,0 +1,90 @@
+//go:build verif
+
+// Verification hooks (build tag "verif" only; add-only; not part of the library's API).
+
+package dom
+
+import (
+	"fmt"
+	"reflect"
+	"sort"
+	"strings"
+	"unsafe"
+)
+
+// VerifDump returns a canonical textual dump of the in-memory REPRESENTATION of a node, a list,
+// a container or an overlay document: every struct field (exported or not), nil-ness, length and
+// capacity of maps and slices, dynamic types behind interfaces. It is written generically with
+// reflection so that a field added later is included. Two dumps are equal iff nothing observable
+// about the representation changed (addresses are not printed).
+func VerifDump(x interface{}) string {
+	var sb strings.Builder
+	verifDump(&sb, reflect.ValueOf(x), 0)
+	return sb.String()
+}
+
+func verifDump(sb *strings.Builder, v reflect.Value, depth int) {
+	if depth > 64 {
+		sb.WriteString("<too deep>")
+		return
+	}
+	if !v.IsValid() {
+		sb.WriteString("<invalid>")
+		return
+	}
+	switch v.Kind() {
+	case reflect.Ptr:
+		if v.IsNil() {
+			sb.WriteString("nil-ptr")
+			return
+		}
+		sb.WriteString("&")
+		verifDump(sb, v.Elem(), depth+1)
+	case reflect.Interface:
+		if v.IsNil() {
+			sb.WriteString("nil-iface")
+			return
+		}
+		sb.WriteString("(" + v.Elem().Type().String() + ")")
+		verifDump(sb, v.Elem(), depth+1)
+	case reflect.Struct:
+		sb.WriteString(v.Type().String() + "{")
+		for i := 0; i < v.NumField(); i++ {
+			f := v.Field(i)
+			if !f.CanInterface() && f.CanAddr() {
+				f = reflect.NewAt(f.Type(), unsafe.Pointer(f.UnsafeAddr())).Elem()
+			}
+			sb.WriteString(v.Type().Field(i).Name + ":")
+			verifDump(sb, f, depth+1)
+			sb.WriteString(";")
+		}
+		sb.WriteString("}")
+	case reflect.Map:
+		if v.IsNil() {
+			sb.WriteString("nil-map")
+			return
+		}
+		keys := v.MapKeys()
+		sort.Slice(keys, func(i, j int) bool { return fmt.Sprint(keys[i]) < fmt.Sprint(keys[j]) })
+		fmt.Fprintf(sb, "map(len=%d)[", v.Len())
+		for _, k := range keys {
+			fmt.Fprintf(sb, "%v=>", k)
+			verifDump(sb, v.MapIndex(k), depth+1)
+			sb.WriteString(",")
+		}
+		sb.WriteString("]")
+	case reflect.Slice:
+		if v.IsNil() {
+			sb.WriteString("nil-slice")
+			return
+		}
+		fmt.Fprintf(sb, "slice(len=%d,cap=%d)[", v.Len(), v.Cap())
+		for i := 0; i < v.Len(); i++ {
+			verifDump(sb, v.Index(i), depth+1)
+			sb.WriteString(",")
+		}
+		sb.WriteString("]")
+	default:
+		fmt.Fprintf(sb, "%v", v)
+	}
+}
